@@ -855,4 +855,177 @@ theorem mem_names_iff_lookup {β : Type} (l : List (Str × β)) (n : Str) :
       have hne : n ≠ k := by simpa using h
       simp [hne, ih]
 
+/-! ### The order of `Rule::variables` is total on names: the sorted list does not depend on the input order -/
+
+theorem strLt_asymm (a b : Str) (h : strLt a b = true) : strLt b a = false := by
+  induction a generalizing b with
+  | nil => cases b <;> simp_all [strLt]
+  | cons x xs ih =>
+    cases b with
+    | nil => simp [strLt] at h
+    | cons y ys =>
+      simp only [strLt, Bool.or_eq_true, Bool.and_eq_true, decide_eq_true_eq] at h
+      simp only [strLt, Bool.or_eq_false_iff, Bool.and_eq_false_iff, decide_eq_false_iff_not]
+      rcases h with h | ⟨rfl, h⟩
+      · refine ⟨by omega, ?_⟩
+        left; intro e; subst e; omega
+      · exact ⟨by omega, Or.inr (ih ys h)⟩
+
+theorem strLt_total (a b : Str) (h1 : strLt a b = false) (h2 : strLt b a = false) : a = b := by
+  induction a generalizing b with
+  | nil => cases b <;> simp_all [strLt]
+  | cons x xs ih =>
+    cases b with
+    | nil => simp [strLt] at h2
+    | cons y ys =>
+      simp only [strLt, Bool.or_eq_false_iff, Bool.and_eq_false_iff, decide_eq_false_iff_not] at h1 h2
+      have hxy : x = y := by
+        apply Char.ext
+        apply UInt32.toNat_inj.mp
+        have : x.toNat = y.toNat := by omega
+        exact this
+      subst hxy
+      rcases h1.2 with h | h
+      · exact absurd rfl h
+      · rcases h2.2 with h' | h'
+        · exact absurd rfl h'
+        · rw [ih ys h h']
+
+theorem strLt_trans (a b c : Str) (h1 : strLt a b = true) (h2 : strLt b c = true) : strLt a c = true := by
+  induction a generalizing b c with
+  | nil =>
+    cases c with
+    | nil => cases b <;> simp [strLt] at h1 h2
+    | cons z zs => simp [strLt]
+  | cons x xs ih =>
+    cases b with
+    | nil => simp [strLt] at h1
+    | cons y ys =>
+      cases c with
+      | nil => simp [strLt] at h2
+      | cons z zs =>
+        simp only [strLt, Bool.or_eq_true, Bool.and_eq_true, decide_eq_true_eq] at h1 h2 ⊢
+        rcases h1 with h1 | ⟨rfl, h1⟩
+        · rcases h2 with h2 | ⟨rfl, h2⟩
+          · left; omega
+          · left; exact h1
+        · rcases h2 with h2 | ⟨rfl, h2⟩
+          · left; exact h2
+          · right; exact ⟨rfl, ih ys zs h1 h2⟩
+
+theorem varBefore_asymm (a b : Str) (h : varBefore a b = true) : varBefore b a = false := by
+  simp only [varBefore, Bool.or_eq_true, Bool.and_eq_true, decide_eq_true_eq] at h
+  simp only [varBefore, Bool.or_eq_false_iff, Bool.and_eq_false_iff, decide_eq_false_iff_not]
+  rcases h with h | ⟨h, hs⟩
+  · exact ⟨by omega, Or.inl (by omega)⟩
+  · exact ⟨by omega, Or.inr (strLt_asymm a b hs)⟩
+
+theorem varBefore_total (a b : Str) (h1 : varBefore a b = false) (h2 : varBefore b a = false) : a = b := by
+  simp only [varBefore, Bool.or_eq_false_iff, Bool.and_eq_false_iff, decide_eq_false_iff_not] at h1 h2
+  have hlen : blen a = blen b := by omega
+  rcases h1.2 with h | h
+  · exact absurd hlen h
+  · rcases h2.2 with h' | h'
+    · exact absurd hlen.symm h'
+    · exact strLt_total a b h h'
+
+theorem varBefore_trans (a b c : Str) (h1 : varBefore a b = true) (h2 : varBefore b c = true) :
+    varBefore a c = true := by
+  simp only [varBefore, Bool.or_eq_true, Bool.and_eq_true, decide_eq_true_eq] at h1 h2 ⊢
+  rcases h1 with h1 | ⟨h1, s1⟩
+  · rcases h2 with h2 | ⟨h2, _⟩
+    · left; omega
+    · left; omega
+  · rcases h2 with h2 | ⟨h2, s2⟩
+    · left; omega
+    · right; exact ⟨by omega, strLt_trans a b c s1 s2⟩
+
+/-- `p` does not come after `q`. -/
+def VarLe {β : Type} (p q : Str × β) : Prop := varBefore q.1 p.1 = false
+
+theorem varLe_trans {β : Type} (p q r : Str × β) (h1 : VarLe p q) (h2 : VarLe q r) : VarLe p r := by
+  unfold VarLe at *
+  cases h : varBefore r.1 p.1 with
+  | false => rfl
+  | true =>
+    -- r before p; compare q with p
+    cases hqp : varBefore q.1 p.1 with
+    | true => rw [hqp] at h1; simp at h1
+    | false =>
+      cases hpq : varBefore p.1 q.1 with
+      | true =>
+        have := varBefore_trans _ _ _ h hpq
+        rw [this] at h2; simp at h2
+      | false =>
+        have : p.1 = q.1 := varBefore_total _ _ hpq hqp
+        rw [this] at h; rw [h] at h2; simp at h2
+
+theorem perm_insertBy {β : Type} (before : Str → Str → Bool) (x : Str × β) (l : List (Str × β)) :
+    (insertBy before x l).Perm (x :: l) := by
+  induction l with
+  | nil => simp [insertBy]
+  | cons y ys ih =>
+    simp only [insertBy]
+    split
+    · exact (List.Perm.cons y ih).trans (List.Perm.swap x y ys)
+    · exact List.Perm.refl _
+
+theorem perm_sortBy {β : Type} (before : Str → Str → Bool) (l : List (Str × β)) : (sortBy before l).Perm l := by
+  induction l with
+  | nil => simp [sortBy]
+  | cons x xs ih => exact (perm_insertBy before x _).trans (List.Perm.cons x ih)
+
+theorem pairwise_insertVars {β : Type} (x : Str × β) (l : List (Str × β)) (h : l.Pairwise VarLe) :
+    (insertBy varBefore x l).Pairwise VarLe := by
+  induction l with
+  | nil => simp [insertBy]
+  | cons y ys ih =>
+    have hy := List.pairwise_cons.mp h
+    simp only [insertBy]
+    split
+    · rename_i hb
+      refine List.pairwise_cons.mpr ⟨?_, ih hy.2⟩
+      intro z hz
+      rcases (mem_insertBy x z ys).mp hz with rfl | hz'
+      · exact varBefore_asymm _ _ hb
+      · exact hy.1 z hz'
+    · rename_i hnb
+      have hxy : VarLe x y := by simpa [VarLe] using hnb
+      refine List.pairwise_cons.mpr ⟨?_, h⟩
+      intro z hz
+      rcases List.mem_cons.mp hz with rfl | hz'
+      · exact hxy
+      · exact varLe_trans x y z hxy (hy.1 z hz')
+
+theorem pairwise_sortVars {β : Type} (l : List (Str × β)) : (sortVars l).Pairwise VarLe := by
+  unfold sortVars
+  induction l with
+  | nil => simp [sortBy]
+  | cons x xs ih => exact pairwise_insertVars x _ ih
+
+theorem eq_of_name_eq {β : Type} (l : List (Str × β)) (hnd : (names l).Nodup) (p q : Str × β)
+    (hp : p ∈ l) (hq : q ∈ l) (h : p.1 = q.1) : p = q := by
+  induction l with
+  | nil => simp at hp
+  | cons x xs ih =>
+    simp only [names, List.map_cons, List.nodup_cons] at hnd
+    rcases List.mem_cons.mp hp with rfl | hp'
+    · rcases List.mem_cons.mp hq with rfl | hq'
+      · rfl
+      · exact absurd (List.mem_map.mpr ⟨q, hq', h.symm⟩) hnd.1
+    · rcases List.mem_cons.mp hq with rfl | hq'
+      · exact absurd (List.mem_map.mpr ⟨p, hp', h⟩) hnd.1
+      · exact ih hnd.2 hp' hq'
+
+/-- With distinct names (the captured markers come out of a map) the sorted variable list is the same for every
+input order. -/
+theorem sortVars_perm {β : Type} (l l' : List (Str × β)) (hperm : l.Perm l') (hnd : (names l).Nodup) :
+    sortVars l = sortVars l' := by
+  apply List.Perm.eq_of_pairwise (le := VarLe) ?_ (pairwise_sortVars l) (pairwise_sortVars l')
+  · exact ((perm_sortBy varBefore l).trans hperm).trans (perm_sortBy varBefore l').symm
+  · intro p q hp hq h1 h2
+    have hp' : p ∈ l := (mem_sortBy p l).mp hp
+    have hq' : q ∈ l := hperm.mem_iff.mpr ((mem_sortBy q l').mp hq)
+    exact eq_of_name_eq l hnd p q hp' hq' (varBefore_total _ _ h2 h1)
+
 end Rio.Marker
